@@ -238,6 +238,25 @@ def check(present: List[bool], excl: List[bool], rev: List[bool], excl_root: boo
         VFS.rel_verdict2 = relv2
         _run(BASE, settings)
         return hc.report(_compare_tree(settings, spec_dirs, excluded, out, recursive, auto_ex, has_prefix, sep2, ext_t, ext_m), **args)
+    if MODE == "symrel":
+        # C17: a directory reachable under two names (a symbolic link to a sibling, links followed): the generated files do not depend on
+        # which of the two names the directory listing reports first
+        subs0 = dirs[BASE][0]
+        if len(subs0) == 0:
+            return True
+        target = pp.join(BASE, subs0[0])
+        alias = pp.join(BASE, "alias")
+        outs = []
+        for order in (list(subs0) + ["alias"], ["alias"] + list(subs0)):
+            real_dirs = dict(dirs)
+            real_dirs[BASE] = (order, dirs[BASE][1])
+            VFS.reset(real_dirs, excluded)
+            VFS.links = {alias: target}
+            s2 = _settings(out, recursive, auto_ex, has_prefix, sep2, ext_t, ext_m)
+            s2.input.follow_symlinks = True
+            _run(BASE, s2)
+            outs.append(sorted(VFS.writes))
+        return hc.report(outs[0] == outs[1], **args)
     if MODE == "rel":
         # C17.a: same contents, other listing order / other working directory / relative input path => same files
         _run(BASE, settings)
